@@ -107,8 +107,9 @@ func verifyDetached(pub crypto.PublicKey, method string, octets, sig []byte) boo
 
 func (c *Ctx) authnRedirect(endpoint, relay, keyName, method string, idp *saml.IdentityProvider) {
 	s := c.spFor(endpoint, endpoint, keyName, method, false)
-	dr := &detReader{c: c}
+	dr := &detReader{c: c, short: c.chance(0.3)}
 	saml.RandReader = dr
+	c.count("rand-reader", map[bool]string{true: "short-reads", false: "full-reads"}[dr.short])
 	now := baseTime
 	saml.TimeNow = func() time.Time { return now }
 	saml.MaxIssueDelay = 90 * time.Second
@@ -163,7 +164,7 @@ func (c *Ctx) authnRedirect(endpoint, relay, keyName, method string, idp *saml.I
 				if ar.Issuer == nil || ar.Issuer.Value != spEntity || ar.Destination != endpoint || ar.AssertionConsumerServiceURL != acsURL {
 					why = append(why, "key=redirect-message issuer/destination/ACS URL are not the configured ones")
 				}
-				if len(dr.drawn) < 1 || len(dr.drawn[0]) < 16 || ar.ID != fmt.Sprintf("id-%x", dr.drawn[0]) {
+				if len(dr.all) < 16 || !strings.HasPrefix(ar.ID, "id-") || len(ar.ID) < 3+32 || !strings.HasPrefix(fmt.Sprintf("%x", dr.all), ar.ID[3:]) {
 					why = append(why, "key=message-id ID is not derived from >=128 bits of the configured random source")
 				}
 			}
